@@ -219,6 +219,8 @@ def validate_histories(ctx, jobs, lin_module, cfg_consts, group=None, prop=None,
     uniq = {}
     for rec in hist:
         key = "\n".join(rec[2])
+        if any(('"op":"%s"' % k) in key for k in FATAL):
+            key = rec[0].variant + "\n" + key      # crashes / hangs are reported per variant
         uniq.setdefault(key, rec)
     hl = list(uniq.values())
     cfg = "SPECIFICATION Spec\nCONSTANTS\n" + "".join("  %s\n" % c for c in cfg_consts) + "  MaxThread = %d\nCHECK_DEADLOCK FALSE\n" % max_thread
